@@ -61,6 +61,37 @@ theorem encode_injective_partial (hc : NoColl h) (t u : Tree) (hs : t.shapeEq u 
         simp at ht hu
         exact ih.2 (by rw [ht, hu])
 
+/-- **Encoding under one schema is injective (partial, schema level).** For every schema whose
+groups and lists are closed correctly (`wfLegacy`: all 36 regenerated schemas, see
+`legacy_schema_wf`), two struct values `v`, `w` whose encodings `encode h s v = encode h s w`
+coincide are read into the same chunk tree, i.e. agree on every field value the schema mentions —
+under the size hypotheses of `encode_injective_partial` on the two trees. -/
+theorem encode_injective (hc : NoColl h) (s : Sch) (hw : s.wfLegacy = true) (v w : Val) (t u : Tree)
+    (hv : s.resolve [v] = .ok [t]) (hw' : s.resolve [w] = .ok [u])
+    (hr : t.rawAgree u = true) (hz : t.sized = true) (hz' : u.sized = true) (r : Chunk)
+    (ev : encode h s v = .ok r) (ew : encode h s w = .ok r) : t = u := by
+  obtain ⟨t', u', e1, e2, hs⟩ := resolve_shape s hw [v] [w] [t] [u] hv hw'
+  simp only [List.cons.injEq, and_true] at e1 e2
+  subst e1; subst e2
+  unfold encode at ev ew
+  rw [hv] at ev; rw [hw'] at ew
+  exact encode_injective_partial hc t u hs hr hz hz' r ev ew
+
+/-- **Well-formed schemas: only hypotheses on the data remain.** For a `wf` schema (config and
+definition hash of v1.5 … v1.10, config hash of v1.11, lock hash of v1.5 / v1.6, see
+`modern_schema_wf`) equal encodings of two struct values imply equal chunk trees as soon as the
+data is in range (`sizedData`: every `putBytesN n` value has exactly `n` bytes — the one condition
+the Go code does not enforce — and integers, limits and list lengths fit uint64). -/
+theorem encode_injective_wf (hc : NoColl h) (s : Sch) (hw : s.wf = true) (v w : Val) (t u : Tree)
+    (hv : s.resolve [v] = .ok [t]) (hw' : s.resolve [w] = .ok [u])
+    (hd : t.sizedData = true) (hd' : u.sizedData = true) (r : Chunk)
+    (ev : encode h s v = .ok r) (ew : encode h s w = .ok r) : t = u := by
+  have s1 := resolve_struct s hw [v] [t] hv
+  have s2 := resolve_struct s hw [w] [u] hw'
+  simp only [Tree.sizedStructL, Tree.noRawL, Bool.and_true] at s1 s2
+  exact encode_injective hc s (wfLegacy_of_wf s hw) v w t u hv hw' (rawAgree_of_noRaw t u s1.2)
+    (sized_of_parts t hd s1.1) (sized_of_parts u hd' s2.1) r ev ew
+
 /-- **Tamper evidence reduced to collision resistance.** If an altered tree (same schema, size
 hypotheses as above) still hashes to the root of the original, an explicit collision of the
 compression function exists. -/
@@ -103,6 +134,18 @@ example : ∃ t u : Tree, t ≠ u ∧ t.shapeEq u = true ∧ t.rawAgree u = true
   ⟨.cont [.u64 1, .blist 64 [1, 2], .mix (some 4) 1 [.fixed 4 [1, 2, 3, 4]]],
    .cont [.u64 2, .blist 64 [1], .mix (some 4) 2 [.fixed 4 [1, 2, 3, 4], .fixed 4 [0, 0, 0, 0]]],
    by simp, by decide, by decide, by decide, by decide, ⟨_, rfl⟩, ⟨_, rfl⟩⟩
+
+/-- the hypotheses of `encode_injective_wf` (hence of `encode_injective`) are satisfiable by a
+well-formed schema and two struct values that it reads into different trees. -/
+example : ∃ (s : Sch) (v w : Val) (t u : Tree), s.wf = true ∧ s.resolve [v] = .ok [t] ∧
+    s.resolve [w] = .ok [u] ∧ t.sizedData = true ∧ u.sizedData = true ∧ t ≠ u :=
+  ⟨.cont [.u64 ⟨0, [.f "A"], .id, 1, ""⟩, .fixed 2 ⟨0, [.f "B"], .id, 2, ""⟩],
+   .obj [("A", .int 1), ("B", .bytes [1, 2])], .obj [("A", .int 2), ("B", .bytes [1, 2])],
+   .cont [.u64 1, .fixed 2 [1, 2]], .cont [.u64 2, .fixed 2 [1, 2]],
+   by decide,
+   by simp [Sch.resolve, Sch.resolveL, Src.u64, Src.bytes, Src.get, Val.walk, Val.step, Val.field, Xf.apply],
+   by simp [Sch.resolve, Sch.resolveL, Src.u64, Src.bytes, Src.get, Val.walk, Val.step, Val.field, Xf.apply],
+   by decide, by decide, by simp⟩
 
 /-- `merkle_collision` is not vacuous: the constant compression function collides. -/
 example : Collision (fun _ _ => zeroChunk) :=
